@@ -40,6 +40,8 @@ def shards(tier):
     for lo in range(0, 4096, 512):
         out.append(("ctr", 0, lo, lo + 512))
     out.append(("session", 1, 0, 70000))
+    for k in range(nk):
+        out.append(("rekey", k, 0, 0))
     for r in range(16):
         out.append(("tamperB", r % nk, r, 0))
     for r in (range(16) if tier == "thorough" else (0, 6, 10, 15)):
@@ -179,6 +181,27 @@ def run_shard(shard, tier) -> Stats:
                 st.ev((part, i), "session-ok", True)
             if len(seen) != b - a:
                 st.violation("session packet count", {"part": part}, b - a, len(seen))
+        elif part == "rekey":
+            # the same protocol object (live connection) obtains a new session key by a second / third handshake
+            for round_ in range(3):
+                sk = sess.conn.state["session_key"]
+                for n in (0, 1, 14, 15, 30, 100):
+                    payload = al.payload("c05r", n, 3)
+                    c = 3 + round_
+                    try:
+                        pkt = sess.proto._encode_encrypted_request(c, payload)
+                        _check_request(st, f"rekey{round_}", kidx, sk, n, c, pkt, payload)
+                    except Exception as e:  # noqa: BLE001
+                        st.violation(f"request after re-handshake: encode raised {type(e).__name__}", {"part": part, "round": round_}, "a packet", str(e)[:80])
+                    sess.sk = sk
+                    _check_response(st, f"rekey{round_}", kidx, sess, n, c, payload)
+                    _check_response(st, f"rekey{round_}", kidx, sess, n, c, payload, wire=True)
+                out = sess.w.run(sess.lan.authenticate(sess.token, sess.key))
+                if out[0] != "ok":
+                    st.violation(f"re-handshake on the live connection failed: {exc_class(out)}", {"part": part, "round": round_}, "ok", str(out[1])[:80])
+                    break
+                if sess.conn.state["session_key"] == sk:
+                    raise RuntimeError("reference device did not issue a new session key")
         elif part == "tamperB":
             r = a
             n = next(x for x in range(20, 40) if (x + 2) % 16 == r)
